@@ -265,7 +265,7 @@ def main():
     env0 = {"XH_KNOWN": ",".join(sorted(kf_ids))}
     n_atomic, n_all = xh.eval_in_harness(H, "[len(ADM_ATOMIC), len(ADM)]", env0)
     rep.note("crash schedules: %d with atomic writes, %d with a torn file write" % (n_atomic, n_all - n_atomic))
-    # quick: every atomic schedule + every 4th torn one (rotated by the seed); thorough: all
+    # (both tiers run every schedule of the model table)
     conds = []
     step = 3000
     for lo in range(0, n_all, step):
@@ -283,9 +283,9 @@ def main():
     # family converge_real: the same schedules over the REAL zorg (SQLite, SQLRepo, ANTLR compiler) in a temp directory
     tpath, table, ntriples = build_real_table(m, tier, seed)
     REAL_TABLE[:] = table
-    stride = 1 if tier == "quick" else 2
+    stride = 1 if tier == "quick" else 4
     rep.note("real-run family: %d state triples (%s), %d schedules, every %s one run" % (
-        ntriples, "every 150th, rotated by the seed, plus every per-page state beside an empty second page" if tier == "quick" else "all", len(table), "" if stride == 1 else "2nd"))
+        ntriples, "every 150th, rotated by the seed, plus every per-page state beside an empty second page" if tier == "quick" else "all", len(table), "" if stride == 1 else "4th"))
     envr = {"XH_TABLE": tpath, "XH_STRIDE": stride, "XH_OFFSET": seed}
     rstep = max(1, (len(table) + 15) // 16)
     for lo in range(0, len(table), rstep):
